@@ -611,3 +611,49 @@ def _decode_db_value(v):
   if f is None:
     raise ImportError("main._decode_db_value not found")
   return f(v)
+
+
+# --------------------------------------------------------------------------- C36 engine level
+
+def c36_pages(ck, valid_tree):
+  """Removing page records goes through useractions._removePageRecords, which applies
+  treeview.fix_indents to the remaining pages: the remaining pages must form a valid tree."""
+  rng = ck.rng
+  n_docs = 6 if ck.tier == "quick" else 60
+  for _ in range(n_docs):
+    doc = Doc()
+    n = rng.randint(2, 7)
+    for i in range(n):
+      doc.apply([["AddTable", "P%d" % i, [{"id": "a", "type": "Int", "isFormula": False, "formula": ""}]]])
+    pages = sorted(doc.meta("_grist_Pages"), key=lambda p: p["pagePos"])
+    ids = [p["id"] for p in pages]
+    cur = 0
+    inds = []
+    for k in range(len(ids)):
+      cur = 0 if k == 0 else max(0, min(cur + rng.choice([-2, -1, 0, 1, 1]), cur + 1))
+      inds.append(cur)
+    r = doc.apply([["BulkUpdateRecord", "_grist_Pages", ids, {"indentation": inds}]])
+    if not r.ok:
+      continue
+    for _round in range(3):
+      pages = sorted(doc.meta("_grist_Pages"), key=lambda p: p["pagePos"])
+      if len(pages) < 2:
+        break
+      gone = rng.sample([p["id"] for p in pages], rng.randint(1, max(1, len(pages) // 2)))
+      before = [(p["id"], p["indentation"]) for p in pages]
+      r = doc.apply([["BulkRemoveRecord", "_grist_Pages", gone]])
+      ck.evaluated()
+      if not r.ok:
+        ck.count("engine_page_removal_rejected")
+        continue
+      after = sorted(doc.meta("_grist_Pages"), key=lambda p: p["pagePos"])
+      levels = [p["indentation"] for p in after]
+      ck.count("engine_page_removals")
+      if not valid_tree(levels):
+        ck.violation("remaining pages are not a valid tree (through RemoveRecord on _grist_Pages)",
+                     "before %r removed %r after %r" % (before, gone, [(p["id"], p["indentation"]) for p in after]),
+                     {"engine_level": True, "before": before, "removed": gone})
+      old = dict(before)
+      for p in after:
+        if p["indentation"] > old.get(p["id"], p["indentation"]):
+          ck.violation("page made deeper by a removal (engine level)", "%r" % (p,), {"before": before, "removed": gone})
